@@ -20,6 +20,7 @@ RULE = (
     "sorted, separated by >= 1 base, no N / excluded base outside a bridged gap). Non-trivial = a record with >= 2 accessible "
     "runs one of whose boundaries is at a line break, or an exclusion cutting a run, or a join; distinct = distinct case JSON."
 )
+CLI_SHARE = 4  # one case in CLI_SHARE also goes through the command line (vk/cli.py)
 QUICK = {"examples": 4000, "shards": 16, "budget_s": 300}
 THOROUGH = {"examples": 48000, "shards": 16, "budget_s": 2400}
 FUZZ = {"seconds": 90, "jobs": 8, "instrument": ["cnvlib.access", "cnvlib.antitarget", "skgenome.subtract", "skgenome.merge"]}
